@@ -381,6 +381,14 @@ func Contents(names []string) []Content {
 		b.Add(AuxC, P(simpleObj("leafC"), "definitions", "leafC"))
 		return J{"$ref": AuxA + "#/definitions/sib"}
 	}).Aux = true
+	add("refAuxChainToRecursive", "ref-aux-chain", func(b *BundleSpec, s int) J {
+		// a recursive auxiliary definition first reached behind two other imports
+		b.Add(AuxA, P(J{"type": "object", "properties": J{"payload": J{"$ref": "#/definitions/middle"}}}, "definitions", "envelope"),
+			P(J{"type": "object", "properties": J{"first": J{"$ref": "deep/b.json#/definitions/rnode"}}}, "definitions", "middle"))
+		b.Add(AuxB, P(J{"type": "object", "properties": J{"next": J{"$ref": "#/definitions/rnode"}, "v": J{"type": "string"}}}, "definitions", "rnode"))
+		b.Cyclic = true
+		return J{"$ref": AuxA + "#/definitions/envelope"}
+	}).Aux = true
 	add("refAuxChain3", "ref-aux-chain", func(b *BundleSpec, s int) J {
 		// root -> sub/a.json -> sub/deep/b.json -> other/c.json: every hop is relative to the document it is written in
 		b.Add(AuxA, P(J{"type": "object", "properties": J{"m": J{"$ref": "deep/b.json#/definitions/mid3"}}}, "definitions", "chain3"))
@@ -669,7 +677,8 @@ func Contents(names []string) []Content {
 	// imports colliding by name with a root definition (imported definition is $ref-free)
 	add("refAuxRich", "ref-aux", func(b *BundleSpec, s int) J {
 		b.Add(AuxA, P(J{"type": "object", "title": "AuxRich", "description": "rich aux", "required": []any{"n"}, "x-aux": J{"deep": []any{J{"a": 1}}}, "example": J{"n": "x"}, "additionalProperties": false,
-			"properties": J{"n": J{"type": "string", "x-go-name": "N", "maxLength": 5}, "inner": J{"type": "object", "x-inner": true, "properties": J{"v": J{"type": "number", "default": 1.5}}}}}, "definitions", "auxRich"))
+			"properties": J{"n": J{"type": "string", "x-go-name": "N", "maxLength": 5, "pattern": "^[a-z]+$", "enum": []any{"x", "y"}}, "inner": J{"type": "object", "x-inner": true, "properties": J{"v": J{"type": "number", "default": 1.5}}},
+				"codes": J{"type": "array", "items": J{"type": "string", "pattern": "^[A-Z]{2}$"}}}}, "definitions", "auxRich"))
 		return J{"$ref": AuxA + "#/definitions/auxRich"}
 	}).Aux = true
 	for _, body := range []string{"complex", "simple"} {
@@ -832,6 +841,25 @@ func OtherFeatures(names []string) []Feature {
 			P(J{"type": "object", "properties": J{"data": simpleObj("lower")}}, "definitions", "widget"))
 		b.use("Widget")
 		b.use("widget")
+	})
+	add("aliasOfNestedCollidingImport", "collide", func(b *BundleSpec, s int) {
+		// the colliding import holds nested complex schemas; its topmost referrer is a top-level alias (a single $ref)
+		b.Add(RootFile, P(simpleObj("rootWidget"), "definitions", "widgetx"), P(J{"$ref": AuxA + "#/definitions/widgetx"}, "definitions", "aliasNested"))
+		b.Add(AuxA, P(J{"type": "object", "properties": J{"owner": J{"type": "object", "properties": J{"address": simpleObj("nestedAddr")}}, "parts": J{"type": "array", "items": []any{simpleObj("part0"), J{"type": "string"}}}}}, "definitions", "widgetx"))
+		b.use("widgetx")
+		b.use("aliasNested")
+	})
+	add("aliasOfCollidingImportManyReferrers", "collide", func(b *BundleSpec, s int) {
+		// a top-level alias of a colliding import plus referrers at several depths: inside an inline object of a response,
+		// inside other definitions, under array items
+		ref := J{"$ref": AuxA + "#/definitions/thingy"}
+		b.Add(RootFile, P(simpleObj("rootThingy"), "definitions", "thingy"), P(ref, "definitions", "aliasMany"),
+			P(J{"type": "object", "properties": J{"t": ref}}, "definitions", "zUser"), P(J{"type": "array", "items": ref}, "definitions", "mList"),
+			P(J{"description": "inline referrer", "schema": J{"type": "object", "properties": J{"a": ref, "b": J{"type": "string"}}}}, "paths", BasePath, "get", "responses", "431"))
+		b.Add(AuxA, P(simpleObj("auxThingy"), "definitions", "thingy"))
+		b.use("thingy")
+		b.use("zUser")
+		b.use("mList")
 	})
 	add("unusedAliasOfCollidingImport", "collide", func(b *BundleSpec, s int) {
 		// a top-level alias of a colliding import that nothing refers to, next to a second referrer of the same import
